@@ -255,3 +255,50 @@ pub fn run(seed: u64, tier: &str, out: &mut Out, fit_only: bool, c04: bool) {
         out.emit(&case, &format!("{obs} ORACLE {verdict}"));
     }
 }
+
+// ---- parsing of encoded cases (used to re-run edited cases: shrinking of failing histories)
+
+/// inverse of `enc` up to the exact colour sequence (any SGR sequence is the same zero-width glyph for the model)
+pub fn dec(s: &str) -> Option<String> {
+    if s == "-" { return Some(String::new()); }
+    let mut out = String::new();
+    for g in s.split(',') {
+        let (cp, w) = g.split_once(':')?;
+        if cp == "27" && w == "0" { out.push_str("\x1b[32m"); continue; }
+        out.push(char::from_u32(cp.parse().ok()?)?);
+    }
+    Some(out)
+}
+fn parse_fin(toks: &[&str]) -> Option<Fin> {
+    match toks { ["leave"] => Some(Fin::Leave), ["clear"] => Some(Fin::Clear), ["abandon"] => Some(Fin::Abandon),
+        ["msg", m] => Some(Fin::Msg(dec(m)?)), ["abandonmsg", m] => Some(Fin::AbandonMsg(dec(m)?)), _ => None }
+}
+pub fn parse_fin_pub(toks: &[&str]) -> Option<Fin> { parse_fin(toks) }
+pub fn parse_bop(toks: &[&str]) -> Option<BOp> {
+    Some(match toks {
+        ["iter", k] => BOp::Iter(k.parse().ok()?), ["adv", d] => BOp::Adv(d.parse().ok()?), ["tick"] => BOp::Tick,
+        ["inc", d] => BOp::Inc(d.parse().ok()?), ["dec", d] => BOp::Dec(d.parse().ok()?), ["setpos", p] => BOp::SetPos(p.parse().ok()?),
+        ["msg", m] => BOp::Msg(dec(m)?), ["prefix", m] => BOp::Prefix(dec(m)?), ["len", "none"] => BOp::Len(None), ["len", l] => BOp::Len(Some(l.parse().ok()?)),
+        ["println", m] => BOp::Println(dec(m)?), ["suspend", rest @ ..] => BOp::Suspend(rest.iter().map(|l| dec(l)).collect::<Option<Vec<_>>>()?),
+        ["reset"] => BOp::Reset, ["finish", rest @ ..] => BOp::Finish(parse_fin(rest)?), ["finishstyle"] => BOp::FinishStyle, ["drop"] => BOp::Drop,
+        _ => return None })
+}
+/// `BAR FX=.. w h hz T0 tpl len fin.. ; op ; op`
+pub fn parse_case(line: &str) -> Option<Case> {
+    let mut parts = line.split(" ; ");
+    let hdr: Vec<&str> = parts.next()?.split_whitespace().collect();
+    if hdr.len() < 9 || hdr[0] != "BAR" { return None; }
+    let len = if hdr[7] == "none" { None } else { Some(hdr[7].parse().ok()?) };
+    let on_finish = parse_fin(&hdr[8..])?;
+    let mut ops = Vec::new();
+    for p in parts { let t: Vec<&str> = p.split_whitespace().collect(); ops.push(parse_bop(&t)?); }
+    Some(Case { w: hdr[2].parse().ok()?, h: hdr[3].parse().ok()?, hz: hdr[4].parse().ok()?, tpl: hdr[6].parse().ok()?, len, on_finish, ops })
+}
+
+/// one given case as the stream `stream` (C01, C19 or C04B) would run it: (case line, observation line)
+pub fn run_given_case(c: &Case, stream: &str) -> (String, String) {
+    let (obs, mut verdict, ops) = run_case(c);
+    let case = encode(c, &ops);
+    if stream == "C04B" && verdict.starts_with("FAIL F30") { verdict = "skip F30 is judged by C01".into(); }
+    (case, format!("{obs} ORACLE {verdict}"))
+}
